@@ -143,7 +143,7 @@ lag_class(const r_buf_rpos_t *rp) {
 }
 
 /* Where would a full read from cursor *src start?  Returns 0 and *q when that read is
- * consistent and non-empty (used for statistics and labels only, never reports). */
+ * consistent (used for statistics and labels only, never reports). */
 static int check_stream(const char *lag, iovec_p out, size_t n, size_t *total_ret, uint64_t *q_ret);
 static int
 peek_start(const r_buf_rpos_t *src, uint64_t *q_ret) {
@@ -158,7 +158,9 @@ peek_start(const r_buf_rpos_t *src, uint64_t *q_ret) {
 	g_mute = 1;
 	rc = check_stream("", o2, n2, &t2, q_ret);
 	g_mute = keep;
-	return ((0 != rc || 0 == t2) ? 1 : 0);
+	if (0 == rc && 0 == t2)
+		*q_ret = M.W;	/* nothing to read: the reader resumes with the next committed byte */
+	return (rc);
 }
 
 /* Regions must lie inside the storage and concatenate to consecutive, committed stream
@@ -602,8 +604,11 @@ store_insert(const uint8_t *k, uint64_t W, uint32_t parent, uint16_t op, uint32_
 
 /* ------------------------------------------------------------------ observers (no state change) */
 static int
-calc_unsafe(const r_buf_rpos_t *rp) {
-	return (((size_t)(rp->round_num + 1)) == rb->round_num && rp->iov_index > rb->iov_index_max);
+calc_unsafe(const r_buf_rpos_t *a, const r_buf_rpos_t *b) {
+	const r_buf_rpos_t *lo = (a->round_num < b->round_num) ? a : b;	/* r_buf_rpos_cmp() orders by the raw round number */
+
+	/* r_buf_rpos_calc_size() sums (1 + iov_index_max - lo->iov_index) table entries: wraps below zero here. */
+	return (a->round_num != b->round_num && lo->iov_index > rb->iov_index_max + 1);
 }
 
 static void
@@ -654,10 +659,10 @@ observe(int last_level) {
 		}
 		g_mute = 0;
 	}
-	/* r_buf_rpos_calc_size: no oracle (the property does not define this size).  It is skipped where a
-	 * cursor of the previous round sits above iov_index_max: r_buf_rpos_check_fast() accepts that cursor
+	/* r_buf_rpos_calc_size: no oracle (the property does not define this size).  It is skipped where the
+	 * cursor of the lower round sits above iov_index_max + 1: r_buf_rpos_check_fast() accepts that cursor
 	 * but the size computation then runs off the block table (see NOTES.md, out-of-scope observation). */
-	if (2 == J_nr && (calc_unsafe(&M.rp[0]) || calc_unsafe(&M.rp[1]))) {
+	if (2 == J_nr && calc_unsafe(&M.rp[0], &M.rp[1])) {
 		c_calc_skipped ++;
 	} else if (2 == J_nr) {
 		begin("r_buf_rpos_calc_size");
